@@ -754,7 +754,7 @@ class Baldwin:
                     logging.info("tied Baldwin losers %s, producing %d ties",
                                  loser, n_ties)
                     remaining_scores = self._compute_negative_scores(
-                        RANKED_SUBSETTER.convert(neg_scores, remaining)
+                        RANKED_SUBSETTER.convert(current_votes, remaining)
                     )
                     return (
                         votelib.evaluate.core.get_n_best(
